@@ -33,7 +33,7 @@ def run(ctx):
         'an end-to-end ulp bound of the interval is outside the claim (the statement says "commensurate with conditioning")',
         'K: feeding loops with <= 3 symbolic observations; append/ci_mean replaced by recorders (moves only)',
     ]
-    core.run_kani_set(ctx, ['c01_'], bound='<= 3 observations, recorder stubs', harness_timeout=600)
+    core.run_kani_set(ctx, ['c01_', 'c06_interval_bounds', 'c06_t_and_z', 'c06_critical_value'], bound='<= 3 observations, recorder stubs', harness_timeout=600)
     m = E.MEngine(ctx)
     if not m.ok:
         return
